@@ -515,7 +515,7 @@ pub fn run(ctx: &Ctx) -> Result<Run, String> {
         // while the user step is pending, against fresh authenticators (in-process: termination of
         // single trait calls is settled by the isolated sweep above)
         use super::inst::{self, IOp};
-        let alphabet = [IOp::TraitMake, IOp::TraitGet { who: 0 }, IOp::TraitGet { who: 2 }, IOp::Cancelled(2), IOp::Cancelled(3), IOp::Make { rk: true, prf: false }, IOp::Get { who: 0, prf: false, silent: false }, IOp::Info];
+        let alphabet = [IOp::TraitMake, IOp::TraitGet { who: 0 }, IOp::TraitGet { who: 2 }, IOp::Cancelled(2), IOp::Cancelled(3), IOp::Make { rk: true, prf: false }, IOp::Get { who: 0, prf: false, silent: false }, IOp::Info, IOp::Panics { op: 2, what: 2 }, IOp::Panics { op: 3, what: 1 }, IOp::Panics { op: 3, what: 0 }];
         let st = inst::sweep(&alphabet, ctx.tier.pick(3, 4), &[0, 1], ctx.threads, "instance");
         stats.count("instance_differential_histories", st.evaluations);
         // repetition: the same (granted, denied, dropped) ceremony 8, 9, 17 and 33 times in a row on
